@@ -1240,10 +1240,35 @@ class Interp:
                 raise _SymComp(sym, g)
             for it in self.iter_concrete(itv):
                 self.assign(g.target, it, sub)
+                if len(gens) == 1 and g.ifs:
+                    # a filter that the path condition does not decide keeps the element conditionally: the result is the
+                    # order-preserving compaction (A.compact) instead of 2^n paths
+                    keep = True
+                    for c in g.ifs:
+                        cv = self.eval(c, sub)
+                        try:
+                            if not self.decide(cv):
+                                keep = False
+                                break
+                        except Fork as f:
+                            keep = sv.and_(keep, SV(f.cond)) if keep is not True else SV(f.cond)
+                    if keep is False:
+                        continue
+                    v = self.eval(node.elt, sub)
+                    if keep is not True:
+                        symbolic_keep.append(True)
+                    out.append(v)
+                    keeps.append(keep)
+                    continue
                 if all(self.decide(self.eval(c, sub)) for c in g.ifs):
                     rec(k + 1)
+        keeps, symbolic_keep = [], []
         try:
             rec(0)
+            if symbolic_keep:
+                if not all(sv.is_scalar(norm(x)) for x in out):
+                    raise EngineError("filtered comprehension with symbolic filter over non-scalar elements")
+                return Ref(cur().alloc(Content("list", A.compact([norm(x) for x in out], keeps))), "list")
         except _SymComp as sc:
             if len(gens) != 1 or gens[0].ifs:
                 raise EngineError("symbolic comprehension with filter / nesting")
